@@ -10,7 +10,12 @@ import (
 
 // EnvSetting is one environment variable assignment worth running a workload
 // under: the tree under test reads that variable.
-type EnvSetting struct{ Name, Value string }
+type EnvSetting struct {
+	Name, Value string
+	// Literal: the value appears in the source next to the read (as opposed to
+	// the generic values 1 / true / all that are always tried).
+	Literal bool
+}
 
 func (e EnvSetting) String() string { return e.Name + "=" + e.Value }
 
@@ -58,7 +63,7 @@ func EnvSettings() []EnvSetting {
 					continue
 				}
 				if vals[name] == nil {
-					vals[name] = map[string]bool{"1": true, "true": true, "all": true}
+					vals[name] = map[string]bool{"1": false, "true": false, "all": false}
 				}
 				for j := i; j < i+3 && j < len(lines); j++ {
 					for _, lm := range literalRe.FindAllStringSubmatch(lines[j], -1) {
@@ -74,7 +79,7 @@ func EnvSettings() []EnvSetting {
 	var out []EnvSetting
 	for n, vs := range vals {
 		for v := range vs {
-			out = append(out, EnvSetting{n, v})
+			out = append(out, EnvSetting{n, v, vs[v]})
 		}
 	}
 	sort.Slice(out, func(i, j int) bool { return out[i].String() < out[j].String() })
